@@ -152,6 +152,10 @@ def main():
         check('start', 'success only after the server was run, stopped and awaited', lambda r: not is_nil_err(r.ret) or (api(r, 'server.Run') and api(r, 'RequestStop') and api(r, 'AwaitStop')))
         for cmd in ('setup', 'import-setup', 'convert-to-raw'):
             check(cmd, 'success requires the proving system to have been written', lambda r: not is_nil_err(r.ret) or (api(r, 'WriteRawTo') and api(r, 'WriteRawTo')[0][2] == 'ok'))
+        def read_before_create(r):
+            idx = {e[1]: i for i, e in enumerate(r.state.events) if e[0] == 'api' and e[1] in ('ReadSystemFromFile', 'os.Create')}
+            return 'os.Create' not in idx or ('ReadSystemFromFile' in idx and idx['ReadSystemFromFile'] < idx['os.Create'])
+        check('convert-to-raw', 'the input file is read completely before the output file is created (converting a file in place must not destroy it)', read_before_create)
         # vacuity: every command has a succeeding path
         for cmd in want:
             run.obligation('%s twin: a succeeding path exists' % cmd, 'sat' if any(is_nil_err(r.ret) for r in paths[cmd]) else 'unsat', 'sat', 0.0)
@@ -220,6 +224,11 @@ def native_cli(run):
         expect('%s prove of unprovable parameters exits non-zero and prints nothing on stdout' % mode, rc != 0 and so.strip() == '')
         rc, so, se = sh(['prove', '--mode', mode, '--keys-file', keys + '_missing'], stdin=params)
         expect('%s prove with a missing keys file exits non-zero' % mode, rc != 0)
+        kc = keys + '_inplace'
+        open(kc, 'wb').write(open(keys, 'rb').read())
+        rc, so, se = sh(['convert-to-raw', '--input', kc, '--output', kc])
+        rc2, so2, se2 = sh(['verify', '--mode', mode, '--keys-file', kc, '--input-hash', h], stdin=proof)
+        expect('%s convert-to-raw in place exits 0 and the file still verifies' % mode, rc == 0 and rc2 == 0)
         data = open(keys, 'rb').read()
         for cut in (len(data) - 1, len(data) - 1000, len(data) - len(data) // 50):
             tk = keys + '_cut'
